@@ -1555,6 +1555,30 @@ class Interp:
             c, inst = self.eval(e.args[0], frame), self.eval(e.args[1], frame)
             if isinstance(c, ClassRef):
                 return SuperProxy(c, inst)
+        if isinstance(e.func, ast.Name) and e.func.id == 'eval' and 'eval' not in frame.locals and 1 <= len(e.args) <= 3 and not e.keywords:
+            # eval(<text>[, globals[, locals]]) of a CONCRETE expression text: the text is parsed and evaluated like source --
+            # in the calling frame, or in a frame made of the given dictionaries
+            src = self.eval(e.args[0], frame)
+            if not isinstance(src, str):
+                raise Unsupported('eval of a non-constant expression text')
+            try:
+                tree = ast.parse(src.strip(), mode='eval')
+            except SyntaxError:
+                raise PyExc('SyntaxError')
+            if len(e.args) == 1:
+                return self.eval(tree.body, frame)
+            env = {}
+            for a in e.args[1:]:
+                d = self.eval(a, frame)
+                if d is None:
+                    continue
+                if not isinstance(d, dict):
+                    raise Unsupported('eval with a non-dict namespace')
+                env.update(d)
+            fr = Frame(frame.func, dict(env), None)
+            fr.globals_decl = set()
+            fr.eval_namespace = True
+            return self.eval(tree.body, fr)
         f = self.eval(e.func, frame)
         args = []
         for a in e.args:
